@@ -11,7 +11,7 @@ DESCRIPTION = {
              "Oracle: the callback log matches connect? join? leave? disconnect? in that order, each at most once; leave fired exactly once when a joined session ended or the "
              "router aborted; the illegal message raises ProtocolError and is not acted on; GOODBYE written at most once and a peer GOODBYE answered iff we had not sent one; once "
              "the transport is gone every request Deferred/Future is completed with an error (already at leave time when the library's own onLeave ran) and call/publish/subscribe/"
-             "register raise TransportLost.  The reason URI and message on the router's GOODBYE are drawn per history (six URIs including wamp.close.goodbye_and_out and an error URI): whether it is answered depends only on who initiated.  Endings include a join() on the still established session (must be refused and change nothing).  Non-trivial = >=1 outstanding request at the end and an exit path other than WELCOME-leave-GOODBYE; distinct by (history, loss position)."),
+             "register raise TransportLost.  The reason URI and message on the router's GOODBYE are drawn per history (six URIs including wamp.close.goodbye_and_out and an error URI): whether it is answered depends only on who initiated.  Endings include a join() on the still established session (must be refused and change nothing).  Non-trivial = >=1 outstanding request at the end and an exit path other than WELCOME-leave-GOODBYE; distinct by (history, loss position). onChallenge() may also return a pending result that *fails* later: while authenticating (then exactly like a raising onChallenge), after the router's ABORT or after transport loss (then nothing may be sent and no callback may fire)."),
     "assumptions": ["re-joining on the same transport is not generated"],
 }
 
